@@ -122,7 +122,7 @@ def b_demux(D, p):
     return dict(a=a, sel=sel), {'r%d' % i: w for i, w in enumerate(rs)}
 
 
-spec('Demux', 'C08', lambda tier: [c for c in prod(sw=[1, 2, 3, 4, 5] if tier == 'quick' else [1, 2, 3, 4, 5, 6, 7], w=[1, 2]) if c['sw'] < 3 or c['w'] == 1], b_demux,
+spec('Demux', 'C08', lambda tier: [c for c in prod(sw=[1, 2, 3, 4, 5] if tier == 'quick' else [1, 2, 3, 4, 5, 6], w=[1, 2]) if c['sw'] < 3 or c['w'] == 1], b_demux,
      lambda v, p: {'r%d' % i: (v['a'] if v['sel'] == i else 0) for i in range(1 << p['sw'])})
 
 
@@ -133,7 +133,7 @@ def b_decoder(D, p):
     return dict(a=a), {'b%d' % i: w for i, w in enumerate(bs)}
 
 
-spec('Decoder', 'C08', lambda tier: [dict(aw=aw, n=1 << aw) for aw in ([1, 2, 3, 4, 5, 6] if tier == 'quick' else [1, 2, 3, 4, 5, 6, 7, 8])], b_decoder,
+spec('Decoder', 'C08', lambda tier: [dict(aw=aw, n=1 << aw) for aw in ([1, 2, 3, 4, 5, 6] if tier == 'quick' else [1, 2, 3, 4, 5, 6, 7])], b_decoder,
      lambda v, p: {'b%d' % i: int(v['a'] == i) for i in range(p['n'])})
 
 
